@@ -13,10 +13,10 @@ import (
 	"time"
 
 	sdk "github.com/cosmos/cosmos-sdk/types"
-	"github.com/cosmos/cosmos-sdk/x/authz"
-	"github.com/cosmos/cosmos-sdk/x/feegrant"
 	"github.com/cosmos/cosmos-sdk/types/query"
+	"github.com/cosmos/cosmos-sdk/x/authz"
 	banktypes "github.com/cosmos/cosmos-sdk/x/bank/types"
+	"github.com/cosmos/cosmos-sdk/x/feegrant"
 
 	beacontypes "github.com/unification-com/mainchain/x/beacon/types"
 	enttypes "github.com/unification-com/mainchain/x/enterprise/types"
@@ -134,11 +134,15 @@ type Track struct {
 }
 
 // partyNames: the scenario accounts plus the governance module account (a party of its own through proposals).
-func (w *World) partyNames() []string { return append(append([]string{}, w.Names...), "gov") }
+// ... and the group policy account (a party through group proposals).
+func (w *World) partyNames() []string { return append(append([]string{}, w.Names...), "gov", "grp") }
 
 func (w *World) partyAddr(n string) sdk.AccAddress {
 	if n == "gov" {
 		return w.GovAddr
+	}
+	if n == "grp" {
+		return w.GrpAddr
 	}
 	return w.Accts[n].Addr
 }
@@ -577,7 +581,16 @@ func (w *World) projStr(ctx sdk.Context) J {
 	out["p"] = J{"feeNum": n, "feeDen": d}
 	ss := J{}
 	// all streams through the paginated list query (large page), cross-checked by point query
-	resp, err := k.Streams(g, &streamtypes.QueryStreamsRequest{Pagination: &query.PageRequest{Limit: 1000}})
+	var resp *streamtypes.QueryStreamsResponse
+	func() {
+		defer func() {
+			if r := recover(); r != nil {
+				err = fmt.Errorf("stream list query panicked: %v", r)
+				out["listPanic"] = true
+			}
+		}()
+		resp, err = k.Streams(g, &streamtypes.QueryStreamsRequest{Pagination: &query.PageRequest{Limit: 1000}})
+	}()
 	listed := []interface{}{}
 	if err == nil {
 		for _, s := range resp.Streams {
@@ -586,13 +599,14 @@ func (w *World) projStr(ctx sdk.Context) J {
 		}
 	}
 	out["listed"] = listed
-	for _, r := range w.Names {
-		for _, s := range w.Names {
+	parties := append(append([]string{}, w.Names...), "grp")
+	for _, r := range parties {
+		for _, s := range parties {
 			if r == s {
 				continue
 			}
 			q, err := k.StreamByReceiverSender(g, &streamtypes.QueryStreamByReceiverSenderRequest{
-				ReceiverAddr: w.Accts[r].Addr.String(), SenderAddr: w.Accts[s].Addr.String()})
+				ReceiverAddr: w.partyAddr(r).String(), SenderAddr: w.partyAddr(s).String()})
 			if err != nil {
 				continue
 			}
